@@ -97,6 +97,10 @@ def tasks(tier):
         for nested in (False, True):
             for fails in (False, True):
                 out.append({"others": others, "nested": nested, "fails": fails, "same_payload": False})
+    # asyncio: while a callback is suspended, another task runs a complete send() or activate_initial_state()
+    for action in ("send", "activate", "both"):
+        for fails in (False, True):
+            out.append({"kind": "async-suspend", "action": action, "fails": fails, "nested": True})
     out.append({"kind": "burst", "engine": "sync"})
     out.append({"kind": "burst", "engine": "async"})
     out.append({"others": 1, "nested": False, "fails": False, "same_payload": True})
@@ -108,10 +112,127 @@ BUDGET = {
     "quick": {"max_secs": 300, "task_secs": 200, "path_secs": 30},
     "thorough": {"max_secs": 1800, "task_secs": 1500, "path_secs": 60},
 }
-OBLIGATIONS = []
+OBLIGATIONS = ["async-other-task-ran", "async-sequential", "injected", "sequential", "burst-all-processed"]
+
+
+def run_async_suspend(ctx, params):
+    """All-async machine on a real event loop.  Inside a callback of the event being processed (the only place where
+    the running task can change) another task's complete `await sm.send(...)` or `await sm.activate_initial_state()`
+    runs - awaited right there, which is the schedule "the other task ran while this one was suspended"."""
+    import asyncio
+
+    from statemachine import State, StateMachine
+
+    with ctx.notracing():
+        class AConc(StateMachine):
+            a = State(initial=True)
+            tick = a.to.itself()
+
+            async def on_tick(self, eid):
+                return await self.hook(eid)
+
+        sm = AConc()
+        inj = Injector(ctx, sm, [])
+        q = GDeque()
+        q.inj = inj
+        if not hasattr(sm._engine, "_external_queue") or not hasattr(sm._engine, "_processing"):
+            return
+        for x in list(sm._engine._external_queue):
+            deque.append(q, x)
+        sm._engine._external_queue = q
+    log = inj.trace
+    inside = [0]
+    overlap = [False]
+    began = {}
+    sent = []
+    failing = set()
+    actions = {"send": ["send"], "activate": ["activate"], "both": ["send", "activate"]}[params["action"]]
+    pending = [("B", a) for a in actions]
+
+    async def hook(eid):
+        inside[0] += 1
+        if inside[0] > 1:
+            overlap[0] = True
+        began[eid] = began.get(eid, 0) + 1
+        log.append(("begin", eid))
+        try:
+            if params["nested"] and not str(eid).endswith("'") and ctx.choose(2, f"nested@{eid}"):
+                child = f"{eid}'"
+                sent.append(child)
+                await sm.send("tick", eid=child)
+            while pending and ctx.choose(2, f"suspend@{eid}#{len(pending)}"):
+                who, act = pending.pop(0)
+                log.append(("other-task", act, "during", eid))
+                if act == "send":
+                    name = f"{who}{len(sent)}"
+                    sent.append(name)
+                    r = await sm.send("tick", eid=name)
+                    if r is not None:
+                        raise Mismatch("send-while-busy-returned-a-result:asyncio", f"{r!r}: {log}")
+                else:
+                    await sm.activate_initial_state()
+                log.append(("other-task-returned", act))
+            if params["fails"] and ctx.choose(2, f"fails@{eid}"):
+                failing.add(eid)
+                log.append(("fail", eid))
+                raise Fail(eid)
+            log.append(("end", eid))
+        finally:
+            inside[0] -= 1
+
+    sm.hook = hook
+
+    async def main():
+        await sm.activate_initial_state()
+        for top in ("A", "Z"):
+            sent.append(top)
+            try:
+                await sm.send("tick", eid=top)
+            except Fail:
+                log.append(("raised-to", top))
+            log.append(("returned", top))
+        # whatever was not scheduled inside a callback runs afterwards
+        while pending:
+            who, act = pending.pop(0)
+            if act == "send":
+                sent.append(who)
+                try:
+                    await sm.send("tick", eid=who)
+                except Fail:
+                    pass
+            else:
+                await sm.activate_initial_state()
+
+    asyncio.run(main())
+    tag = f"asyncio:{params['action']}"
+    if overlap[0]:
+        raise Mismatch(f"callbacks-overlap:{tag}", f"{log}")
+    twice = [e for e, c in began.items() if c > sent.count(e)]
+    if twice:
+        raise Mismatch(f"event-processed-twice:{tag}", f"{twice}: {log}")
+    dropped = set()
+    for rec in log:
+        if rec[0] == "clear":
+            dropped |= set(rec[1])
+    never = [e for e in set(sent) if began.get(e, 0) < sent.count(e)]
+    lost = [e for e in never if e not in dropped or not failing]
+    left = deque.__len__(q)
+    if lost or left:
+        raise Mismatch(f"event-lost-or-stranded:{tag}", f"never processed {lost}, left in queue {left}: {log}")
+    order = [r[1] for r in log if r[0] == "begin"]
+    exp_order = [e for e in sent if e in order]
+    if order != exp_order:
+        raise Mismatch(f"events-out-of-order:{tag}", f"sent {sent}, processed {order}: {log}")
+    lk = sm._engine._processing
+    if lk.locked() if hasattr(lk, "locked") else False:
+        raise Mismatch(f"lock-held-at-quiescence:{tag}", f"{log}")
+    ctx.cover("async-other-task-ran" if any(r[0] == "other-task" for r in log) else "async-sequential")
+    ctx.note({"events": sent, "failing": sorted(failing)})
 
 
 def run(ctx, params):
+    if params.get("kind") == "async-suspend":
+        return run_async_suspend(ctx, params)
     if params.get("kind") == "burst":
         # the transition system gives the queue as many slots as the configuration can fill: "append never drops" is an
         # assumption of the encoding, validated here against the real engine (concrete run)
